@@ -300,6 +300,18 @@ open Witness2 in
 theorem C11_witness_unframed_data_names : ruleBad [[1, 2], [3]] = ruleBad [[1], [2, 3]] ∧ [[1, 2], [3]] ≠ [[1], [2, 3]] := by
   decide
 
+theorem facts_no_output : TestCache.hashesNoOutput = true := by decide
+
+/-- `no_test_output` is part of the runtime rule pre-image (repair of `runtime-hash-omits-no-test-output`): in the
+    concrete end-to-end instance equal pre-images have equal `no_test_output`. -/
+theorem C11_no_test_output_hashed (a b : PlzVerif.TestE2E.TAttrs)
+    (h : PlzVerif.TestE2E.ruleSerRT a = PlzVerif.TestE2E.ruleSerRT b) : a.noOutput = b.noOutput := by
+  unfold PlzVerif.TestE2E.ruleSerRT at h
+  rw [facts_no_output] at h
+  have := congrArg (fun s => s.toList.head?) h
+  cases ha : a.noOutput <;> cases hb : b.noOutput <;>
+    simp [PlzVerif.TestE2E.ruleSerRTWith, ha, hb, String.toList_append] at this ⊢
+
 /-- As long as `no_test_output` is written into no hash (`ruleSerRTWith false`; the concrete instance follows the
     regenerated fact `hashesNoOutput`): in the concrete end-to-end instance two test definitions that differ
     only in that attribute have the same runtime rule pre-image and different outcomes on the same (empty) runtime
@@ -338,10 +350,10 @@ theorem C11_cache_restores_earlier_pass :
 
 /-! ### Non-vacuity -/
 
--- `hRT` of `C11_outcome_eq_fresh` is satisfiable for a facts record that hashes names (NOT today's record, for which
--- it is refuted above) and identity pre-images
-example : InjOn (G := Nat) (A' := Nat) (N := Nat) (C := Nat) { TestCache.Facts.asCoded with hashesNames := true } id id (fun (_ : Nat) (_ : List (Nat × Nat)) => True) :=
-  injOn_of_hashesNames _ id id rfl rfl rfl (fun _ _ h => h) (fun _ _ h => h)
+-- the hypotheses of `C11_outcome_eq_fresh` are satisfiable (identity pre-images), and with THIS RUN's facts record the
+-- runtime pre-image then determines the runtime inputs (before fix 61d5158 this was refuted: `C11_old_witness_not_injective`)
+example : InjOn (G := Nat) (A' := Nat) (N := Nat) (C := Nat) TestCache.generatedFacts id id (fun (_ : Nat) (_ : List (Nat × Nat)) => True) :=
+  injOn_of_hashesNames _ id id facts_rule facts_files facts_names (fun _ _ h => h) (fun _ _ h => h)
 
 -- a well-formed, data-closed tree with a test that has a data dependency
 open Witness in
